@@ -66,6 +66,26 @@ def shrink(mod, case, pred, budget=150):
     return cur
 
 
+def describe_build_errors(log):
+    """names the theorems in which `lake build` reported errors (file:line -> enclosing theorem)"""
+    import re
+    out = []
+    for m in re.finditer(r"error: (\S+\.lean):(\d+):(\d+): (.*)", log):
+        f, line, msg = m.group(1), int(m.group(2)), m.group(4)
+        name = "?"
+        try:
+            src = (core.LEAN / f).read_text().splitlines()
+            for k in range(min(line, len(src)) - 1, -1, -1):
+                mm = re.match(r"\s*(?:private |protected )?(?:theorem|lemma|def|example)\s+([^\s\(\{\[:]+)?", src[k])
+                if mm:
+                    name = mm.group(1) or "example"
+                    break
+        except OSError:
+            pass
+        out.append(f"{f}:{line} in `{name}`: {msg[:160]}")
+    return "; ".join(out[:6]) if out else log[-800:]
+
+
 def main(argv=None):
     ap = argparse.ArgumentParser()
     ap.add_argument("--prop", required=True)
@@ -102,7 +122,7 @@ def run(pid, tier, seed, replay, t0):
         raise Infra(f"no theorem module for {pid}")
     ok, log = core.lake_build(mods)
     if not ok:
-        proof_broken = "theorem module VrpProofs.Props.%s does not compile: %s" % (pid, log[-1500:])
+        proof_broken = "theorem module(s) of %s no longer check: %s" % (pid, describe_build_errors(log))
 
     # ---- 2. audit
     theorems = []
